@@ -40,10 +40,23 @@ def _leftmost(node):
     return _leftmost(kids[0]) if kids else node
 
 
+def has_expr_end(repo):
+    """util.py still binds the name get_expr_end at module level (a def, a class or an assignment)"""
+    import ast
+    for n in repo.tree('supp/util.py').body:
+        if isinstance(n, (ast.FunctionDef, ast.ClassDef)) and n.name == 'get_expr_end':
+            return True
+        if isinstance(n, ast.Assign) and any(isinstance(t, ast.Name) and t.id == 'get_expr_end' for t in n.targets):
+            return True
+    return False
+
+
 def expr_end_semantics(repo):
     """-> list of (shape name, verdict, detail); verdict in ok / mixes / wrong / unknown"""
     def build():
         facts = get_facts(repo)
+        if not has_expr_end(repo):
+            return []        # the helper is gone and nothing refers to it: whatever replaced it is interpreted like any other code
         if 'get_expr_end_visitor' not in facts.classes:
             raise AnalysisError('util.get_expr_end_visitor vanished')
         out = []
@@ -172,6 +185,8 @@ def expr_end_layouts(repo):
         import ast
         facts = get_facts(repo)
         out = []
+        if not has_expr_end(repo):
+            return []
         for text in LAYOUTS:
             tree = ast.parse('_ = ' + text.lstrip() if not text.startswith('(') else '_ = ' + text)
             value = tree.body[0].value
